@@ -100,7 +100,8 @@ class MinSetCover():
 
         self.solver.optimize()
         if self.solver.get_model_status() == "kOptimal":
-            subset_cover_sol = self.solver.get_values(self.subset_vars)
+            # binary_values=True rounds within the solver tolerance (a selected subset may be reported as 0.9999999996)
+            subset_cover_sol = self.solver.get_values(self.subset_vars, binary_values=True)
             self._solution = [i for i in range(len(self.subsets)) if subset_cover_sol[i] == 1]
             self._is_solved = True
             self.solve_statistics = {
